@@ -221,7 +221,7 @@ func c12Run(c *core.Case, o *core.Outcome, dist api.DistributionType) {
 		}
 		now := time.Unix(1_700_000_000, 0)
 		// the timestamps handed to the function: exact 100 ms steps, frozen, late/dropped ticks, jittery
-		tpat := r.IntN(4)
+		tpat := r.IntN(5)
 		for cy := 0; cy < cycles; cy++ {
 			sum, mn, mx := 0, math.MaxInt, math.MinInt
 			for k := 0; k < n; k++ {
@@ -232,6 +232,13 @@ func c12Run(c *core.Case, o *core.Outcome, dist api.DistributionType) {
 				case 1:
 				case 2:
 					now = now.Add(time.Duration(100+r.IntN(400)) * time.Millisecond)
+				case 4:
+					// now and then the clock is set back between two sub-ticks
+					if r.IntN(7) == 0 {
+						now = now.Add(-time.Duration(1+r.IntN(5000)) * time.Millisecond)
+					} else {
+						now = now.Add(100 * time.Millisecond)
+					}
 				default:
 					now = now.Add(time.Duration(70+r.IntN(60)) * time.Millisecond)
 				}
